@@ -17,6 +17,8 @@ class ProgBaseSuite:
         "comment/wash/flush/commit/decontaminate/set_diti) from families mixed/transfer/fault/lwops/big, every program "
         "run on EvoWorklist and FluentWorklist (and one in five on BaseWorklist); volumes dyadic, chosen against a shadow "
         "of the volumes so that most calls succeed, the fault family ends with a call refused at a chosen sub-step; "
+        "plus EVERY pair of calls from a fixed 30-call boundary-value alphabet on a 2x2 plate and a 2x2 trough (thorough: also without "
+        "auto_split, and 6000 sampled triples); "
         "non-trivial = at least one call appended a record and at least one call changed a labware; distinct = distinct case JSON"
     )
 
@@ -37,6 +39,15 @@ class ProgBaseSuite:
             devs = ["evo", "fluent"] + (["base"] if i % 5 == 0 else [])
             devs = [d for d in devs if d in self.devices]
             cases += proggen.with_devices(base, devs)
+        # bounded-exhaustive small scope: every pair of calls from a fixed boundary-value alphabet (thorough: both
+        # split settings, and a sample of triples)
+        for base in proggen.gen_small_programs(2, autosplit=True):
+            cases += proggen.with_devices(base, ["evo", "fluent"] if len(cases) % 3 == 0 else ["evo"])
+        if tier == "thorough":
+            for base in proggen.gen_small_programs(2, autosplit=False):
+                cases += proggen.with_devices(base, ["fluent"])
+            for base in proggen.gen_small_programs(3, sample=6000, rng=rng):
+                cases += proggen.with_devices(base, ["evo", "fluent"])
         return cases
 
     def run(self, case):
